@@ -118,6 +118,33 @@ class Folder:
         self._inprogress = set()
         self.budget = budget
         self.tables_folded = set()
+        self.module_exec = None         # installed by absint.install_fold_fallback
+        self._module_ns = {}            # module name -> namespace after running its body | None
+        self._module_running = set()
+        self.transparent_decorated = set()
+
+    def module_namespace(self, m: Module):
+        """Final namespace of a module whose import has effects (see absint.module_is_effectful), computed once by running
+        its body abstractly; None for plain modules, while the run is in progress, or when the run does not come out."""
+        if self.module_exec is None or m is None:
+            return None
+        if m.name in self._module_ns:
+            return self._module_ns[m.name]
+        if m.name in self._module_running:
+            return None
+        from .absint import module_is_effectful
+        if not module_is_effectful(m):
+            self._module_ns[m.name] = None
+            return None
+        self._module_running.add(m.name)
+        try:
+            ns = self.module_exec(m)
+        finally:
+            self._module_running.discard(m.name)
+        self._module_ns[m.name] = ns
+        if ns is not None:
+            self.p.consulted.add(m.relpath)
+        return ns
 
     # ---------------------------------------------------------------- globals
     def global_value(self, m: Module, name: str):
@@ -141,6 +168,12 @@ class Folder:
         return v
 
     def _compute_global(self, m: Module, name: str):
+        if name in m.assigns or name in m.functions or name in m.classes:
+            ns = self.module_namespace(m)
+            if ns is not None and name in ns:
+                if name in m.assigns:
+                    self.tables_folded.add(f'{m.relpath}::{name}')
+                return ns[name]
         if name in m.functions:
             return FuncRef(m.functions[name])
         if name in m.classes:
